@@ -1,2 +1,236 @@
-(** Properties/C15.v — unit-rewriting helpers preserve the physical quantity (statements follow). *)
+(** Properties/C15.v — unit-rewriting helpers preserve the physical quantity.
+    Statements only; proofs in Proofs/RewriteProofs.v over Model/Rewrite.v.  Every theorem holds
+    for EVERY registry [r] satisfying the stated decidable side conditions ([reg_nzb], [reg_okb],
+    [exact_unitb], [nodimb], [wfb] decide them) and for every quantity.
+
+    Vocabulary.  [same_quantity r q q']: both unit containers have the same dimensionality, both
+    are "rational units" ([exact_unit], C02) and magnitude x factor-to-root-units agree (finite
+    magnitudes; NaN stays NaN).  [mergeable r u1 u2]: [_get_dimensionality_ratio] answers a
+    non-zero power.  A quantity carries its unit names in dict order ([rq_ord]). *)
+From Coq Require Import ZArith Qcabs.
 From PintV Require Import Model.UC Model.Eval Model.Registry Model.Rewrite.
+From PintV Require Import Proofs.UCProofs Proofs.RegistryProofs Proofs.RootProofs Proofs.FactorProofs Proofs.RewriteProofs.
+From PintV Require Import Gen.DefaultDefs Gen.DefaultReg.
+Open Scope string_scope.
+
+(** ** helpers_preserve *)
+(** converting to ANY container of the same dimensionality is defined and keeps the quantity *)
+Theorem C15_to_preserves r q ord dst d Fs Bs Fd Bd :
+  reg_nz r → wf (rq_u q) → exact_unit r (rq_u q) Fs Bs → exact_unit r dst Fd Bd →
+  dim_of r (rq_u q) = Ok d → dim_of r dst = Ok d →
+  ∃ q', rq_to r q ord dst = Ok q' ∧ rq_u q' = dst ∧ rq_ord q' = ord ∧ same_quantity r q q'.
+Proof. exact (to_same_quantity r q ord dst d Fs Bs Fd Bd). Qed.
+(** the root units of a container have its dimensionality (and are their own root units) … *)
+Theorem C15_root_units_same_dimensionality r a F B d :
+  reg_ok r → nodim a → rsem r a = Some (F, B) → dim_of r a = Ok d →
+  dim_of r B = Ok d ∧ rsem r B = Some (∅, B).
+Proof. exact (root_units_dim r a F B d). Qed.
+(** … hence [to_root_units] is defined and keeps the quantity *)
+Theorem C15_to_root_units_preserves r q F B d :
+  reg_nz r → reg_ok r → wf (rq_u q) → nodim (rq_u q) → exact_unit r (rq_u q) F B → dim_of r (rq_u q) = Ok d →
+  ∃ q', to_root_units r q = Ok q' ∧ rq_u q' = B ∧ same_quantity r q q'.
+Proof. exact (to_root_same_quantity r q F B d). Qed.
+(** [to_base_units]: whatever the active system answers (C14), if it has the input's dimensionality *)
+Theorem C15_to_base_units_preserves r gbu q b d Fs Bs Fd Bd :
+  reg_nz r → wf (rq_u q) → gbu (rq_u q) = Ok b →
+  exact_unit r (rq_u q) Fs Bs → exact_unit r b Fd Bd → dim_of r (rq_u q) = Ok d → dim_of r b = Ok d →
+  ∃ q', to_base_units r gbu q = Ok q' ∧ rq_u q' = b ∧ same_quantity r q q'.
+Proof. exact (to_base_same_quantity r gbu q b d Fs Bs Fd Bd). Qed.
+(** [_get_reduced_units] keeps the dimensionality, uses only units of the input … *)
+Theorem C15_reduced_units_same_dimensionality r ord a b d :
+  get_reduced_units r ord a = Ok b → wf a → dim_of r a = Ok d →
+  wf b ∧ dim_of r b = Ok d ∧ ∀ k, is_Some (b !! k) → is_Some (a !! k).
+Proof.
+  intros H W D. destruct (reduced_units_dim r ord a b d H W D) as [H1 H2].
+  split; [exact H1|]. split; [exact H2 | exact (reduced_units_subset r ord a b H)].
+Qed.
+(** … so the conversion to it is defined and keeps the quantity (when the reduced container is
+    still a rational unit: thirds of a volume are not) *)
+Theorem C15_reduced_conversion_defined r q new d F B F' B' :
+  reg_nz r → wf (rq_u q) → exact_unit r (rq_u q) F B → dim_of r (rq_u q) = Ok d →
+  get_reduced_units r (rq_ord q) (rq_u q) = Ok new → exact_unit r new F' B' →
+  ∃ q', rq_to r q (present new (rq_ord q)) new = Ok q' ∧ rq_u q' = new ∧ same_quantity r q q'.
+Proof. exact (reduced_units_same_quantity r q new d F B F' B'). Qed.
+Theorem C15_to_reduced_units_preserves r q q' d F B :
+  reg_nz r → reg_ok r → wf (rq_u q) → nodim (rq_u q) → exact_unit r (rq_u q) F B → dim_of r (rq_u q) = Ok d →
+  to_reduced_units r q = Ok q' → (∃ F' B', exact_unit r (rq_u q') F' B') → same_quantity r q q'.
+Proof. exact (to_reduced_same_quantity r q q' d F B). Qed.
+(** [to_compact]: renaming one unit into a spelling of the same dimensionality keeps the
+    dimensionality ([dim_of_mul], [dim_of_pow]); with it the value is kept *)
+Theorem C15_rename_same_dimensionality r bd u nu nd d :
+  wf bd → (nu = u ∨ bd !! nu = None) → dim1 r nu = dim1 r u →
+  dim_of r bd = Ok d → uc_rename bd u nu = Some nd → dim_of r nd = Ok d.
+Proof. exact (rename_dim r bd u nu nd d). Qed.
+Theorem C15_to_compact_preserves r q q' d F B F' B' :
+  reg_nz r → wf (rq_u q) → exact_unit r (rq_u q) F B → dim_of r (rq_u q) = Ok d →
+  to_compact r q = Ok q' → dim_of r (rq_u q') = Ok d → exact_unit r (rq_u q') F' B' → same_quantity r q q'.
+Proof. exact (compact_same_quantity r q q' d F B F' B'). Qed.
+(** [to_preferred]: the integer programme is a parameter of which only "same dimensionality or
+    the input" is assumed; the proportionality test of [find_simple] uses the product *)
+Theorem C15_find_simple_same_dimensionality r sd prefs u :
+  wf sd → find_simple false r sd prefs = Ok (Some u) → dim_of r u = Ok sd.
+Proof. exact (find_simple_sound r sd prefs u). Qed.
+Theorem C15_to_preferred_preserves (mip : reg → rq → list uc → uc) r q q' prefs d F B :
+  (∀ r q prefs, mip r q prefs = rq_u q ∨ dim_of r (mip r q prefs) = dim_of r (rq_u q)) →
+  reg_nz r → wf (rq_u q) → exact_unit r (rq_u q) F B → dim_of r (rq_u q) = Ok d →
+  to_preferred mip false r q prefs = Ok q' → (∃ F' B', exact_unit r (rq_u q') F' B') → same_quantity r q q'.
+Proof. intros H. exact (to_preferred_same_quantity mip H r q q' prefs d F B). Qed.
+(** as coded ([p_exps_tail[i] ** s_exps_head]) the theorem fails: the model, like pint, picks
+    (m/s)**2 for m**2*s and the conversion raises DimensionalityError (F96) … *)
+Theorem C15_to_preferred_preserves_refuted :
+  ∃ q prefs, wfb (rq_u q) = true ∧ exact_unitb default_reg (rq_u q) = true ∧
+    (∀ mip, to_preferred mip true default_reg q prefs = Err EDim) ∧
+    (* with the product in the test no simple match is claimed and the programme is consulted *)
+    match to_preferred (λ _ q _, rq_u q) false default_reg q prefs with
+    | Ok q' => uc_eqb (rq_u q') (rq_u q) && mag_eqb (rq_m q') (rq_m q)
+    | Err _ => false
+    end = true.
+Proof.
+  exists (RQ (MFin 1%Qc) ["meter"; "second"] (mkuc [("meter", mkq 2 1); ("second", mkq 1 1)])),
+         (cons (mkuc [("meter", mkq 1 1); ("second", mkq (-1) 1)]) nil).
+  split; [vm_compute; reflexivity|]. split; [vm_compute; reflexivity|].
+  split; [intros mip|]; vm_compute; reflexivity.
+Qed.
+(** … and holds under the guard "the quantity's alphabetically first dimension has exponent 1" *)
+Theorem C15_to_preferred_preserves_guarded (mip : reg → rq → list uc → uc) r q q' prefs d F B :
+  (∀ r q prefs, mip r q prefs = rq_u q ∨ dim_of r (mip r q prefs) = dim_of r (rq_u q)) →
+  reg_nz r → wf (rq_u q) → exact_unit r (rq_u q) F B → dim_of r (rq_u q) = Ok d → simple_guard d →
+  to_preferred mip true r q prefs = Ok q' → (∃ F' B', exact_unit r (rq_u q') F' B') → same_quantity r q q'.
+Proof. intros H. exact (to_preferred_same_quantity_guarded mip H r q q' prefs d F B). Qed.
+
+(** ** ito_eq_to: each in-place form leaves the object equal to what the functional form returns *)
+Theorem C15_ito_eq_to (mip : reg → rq → list uc → uc) pd r gbu q prefs :
+  ito_root_units r q = to_root_units r q ∧ ito_base_units r gbu q = to_base_units r gbu q
+  ∧ ito_reduced_units r q = to_reduced_units r q ∧ ito_preferred mip pd r q prefs = to_preferred mip pd r q prefs.
+Proof.
+  split; [exact (ito_root_eq_to r q)|]. split; [exact (ito_base_eq_to r gbu q)|].
+  split; [exact (ito_reduced_eq_to r q) | exact (ito_preferred_eq_to mip pd r q prefs)].
+Qed.
+
+(** ** reduced_no_mergeable_pair *)
+Theorem C15_ratio_solves r u1 u2 p :
+  u1 ≠ u2 → dim_ratio r u1 u2 = Ok (Some p) →
+  ∃ D1 D2, dim1 r u1 = Ok D1 ∧ dim1 r u2 = Ok D2 ∧ uc_pow D1 p = D2.
+Proof. exact (dim_ratio_spec r u1 u2 p). Qed.
+Theorem C15_reduced_no_mergeable_pair r ord a b :
+  get_reduced_units r ord a = Ok b → (∀ k, is_Some (a !! k) → k ∈ ord) →
+  ∀ u1 u2, is_Some (b !! u1) → is_Some (b !! u2) → u1 ≠ u2 → ¬ mergeable r u1 u2.
+Proof. exact (reduced_no_mergeable_pair r ord a b). Qed.
+
+(** ** to_compact *)
+Theorem C15_compact_only_prefix r q q' :
+  to_compact r q = Ok q' →
+  q' = q ∨
+  ∃ bo bd u pname k,
+    infer_base_unit r (rq_ord q) (rq_u q) = Ok (bo, bd) ∧ is_Some (bd !! u) ∧
+    uc_rename bd u (pname ++ u) = Some (rq_u q') ∧
+    ((k = 0%Z ∧ pname = "") ∨ ∃ key p, r_prefixes r !! key = Some p ∧ p_name p = pname ∧ p_val p = pow10 k).
+Proof. exact (compact_only_prefix r q q'). Qed.
+(** fixed points: unitless quantities, and 0 / NaN / +-inf magnitudes *)
+Theorem C15_compact_fixed_points r q b :
+  (unitless r q = Ok true → to_compact r q = Ok q) ∧
+  (unitless r q = Ok b → (rq_m q = MFin 0 ∨ rq_m q = MNaN ∨ rq_m q = MPInf ∨ rq_m q = MNInf) → to_compact r q = Ok q).
+Proof.
+  split; [exact (compact_fixed_unitless r q)|].
+  intros H Hm. apply (compact_fixed_special r q b H). apply mag_fixed_iff. exact Hm.
+Qed.
+(** the statement says "dimensionless"; the code tests [unitless]: 1500 radian becomes 1.5 kiloradian (F95) *)
+Theorem C15_compact_fixed_dimensionless_refuted :
+  ∃ q, dimensionless default_reg q = Ok true ∧
+       match to_compact default_reg q with
+       | Ok q' => negb (uc_eqb (rq_u q') (rq_u q)) && mag_eqb (rq_m q') (MFin (mkq 3 2))
+       | Err _ => false
+       end = true.
+Proof.
+  exists (RQ (MFin (mkq 1500 1)) ["radian"] (mkuc [("radian", mkq 1 1)])). split; vm_compute; reflexivity.
+Qed.
+(** the integer logarithm is exact … *)
+Theorem C15_ilog10_spec q : q ≠ 0%Qc → (pow10 (ilog10 q) <= Qcabs q)%Qc ∧ (Qcabs q < pow10 (ilog10 q + 1))%Qc.
+Proof. exact (ilog10_spec q). Qed.
+(** … so with e = power x p (p the integer power of the leading unit) 10^e <= |m| < 10^e * 1000^|p| … *)
+Theorem C15_compact_power_range m p :
+  m ≠ 0%Qc → is_int p = true → inum p ≠ 0%Z →
+  let e := (compact_power m p * inum p)%Z in
+  (pow10 e <= Qcabs m)%Qc ∧ (Qcabs m < pow10 e * pow10 (3 * Z.abs (inum p)))%Qc.
+Proof. exact (compact_power_range m p). Qed.
+(** … and the result of [to_compact] lies in [1, 1000^|p|) whenever the table holds the requested
+    power and the prefixed spelling is worth the prefix; p = 1 is the clause of the statement *)
+Theorem C15_compact_range r q q' d F B Fb Bb F' B' bo bd qb mb u p pname f ex :
+  reg_nz r → wf (rq_u q) →
+  exact_unit r (rq_u q) F B → dim_of r (rq_u q) = Ok d →
+  infer_base_unit r (rq_ord q) (rq_u q) = Ok (bo, bd) → exact_unit r bd Fb Bb → dim_of r bd = Ok d →
+  rq_to r q bo bd = Ok qb → rq_m qb = MFin mb → mb ≠ 0%Qc →
+  leading_unit bo bd = Some (u, p) → is_int p = true → inum p ≠ 0%Z →
+  pick_prefix (si_table r) (compact_power mb p) = Some (compact_power mb p, pname) →
+  to_compact r q = Ok q' → exact_unit r (rq_u q') F' B' → dim_of r (rq_u q') = Ok d →
+  conv_factor r bd (rq_u q') = Ok (Some f, ex) → (f * pow10 (compact_power mb p * inum p) = 1)%Qc →
+  ∃ x', rq_m q' = MFin x' ∧ (1 <= Qcabs x')%Qc ∧ (Qcabs x' < pow10 (3 * Z.abs (inum p)))%Qc.
+Proof. exact (compact_range r q q' d F B Fb Bb F' B' bo bd qb mb u p pname f ex). Qed.
+
+(** ** auto_reduce_preserves: what [*] and [/] return under auto_reduce_dimensions *)
+Theorem C15_auto_reduce_mul_preserves (mip : reg → rq → list uc → uc) pd r o a b q' da db Fa Ba Fb Bb :
+  reg_nz r → reg_ok r → wf (rq_u a) → nodim (rq_u a) → nodim (rq_u b) →
+  exact_unit r (rq_u a) Fa Ba → exact_unit r (rq_u b) Fb Bb → dim_of r (rq_u a) = Ok da → dim_of r (rq_u b) = Ok db →
+  auto_mul mip pd r (AutoCfg false o true) a b = Ok q' → (∃ F' B', exact_unit r (rq_u q') F' B') →
+  dim_of r (rq_u (raw_mul a b)) = Ok (uc_mul da db)
+  ∧ exact_unit r (rq_u (raw_mul a b)) (uc_mul Fa Fb) (uc_mul Ba Bb)
+  ∧ same_quantity r (raw_mul a b) q'.
+Proof. exact (auto_reduce_mul_preserves mip pd r o a b q' da db Fa Ba Fb Bb). Qed.
+Theorem C15_auto_reduce_div_preserves (mip : reg → rq → list uc → uc) pd r o a b q0 q' da db Fa Ba Fb Bb :
+  reg_nz r → reg_ok r → wf (rq_u a) → nodim (rq_u a) → nodim (rq_u b) →
+  exact_unit r (rq_u a) Fa Ba → exact_unit r (rq_u b) Fb Bb → dim_of r (rq_u a) = Ok da → dim_of r (rq_u b) = Ok db →
+  raw_div a b = Ok q0 →
+  auto_div mip pd r (AutoCfg false o true) a b = Ok q' → (∃ F' B', exact_unit r (rq_u q') F' B') →
+  dim_of r (rq_u q0) = Ok (uc_div da db) ∧ same_quantity r q0 q'.
+Proof. exact (auto_reduce_div_preserves mip pd r o a b q0 q' da db Fa Ba Fb Bb). Qed.
+(** the wrapper is the composition of the two in-place helpers; an unset default_preferred_units
+    (the lookup error is swallowed) means no preferred conversion *)
+Theorem C15_auto_wrapper_is_composition (mip : reg → rq → list uc → uc) pd r o prefs red q :
+  ireduce mip pd r (AutoCfg false o true) q = to_reduced_units r q
+  ∧ ireduce mip pd r (AutoCfg false o false) q = Ok q
+  ∧ ireduce mip pd r (AutoCfg true (Some prefs) false) q = to_preferred mip pd r q prefs
+  ∧ ireduce mip pd r (AutoCfg true None red) q = ireduce mip pd r (AutoCfg false None red) q.
+Proof.
+  split; [exact (ireduce_reduce_only mip pd r o q)|]. split; [exact (ireduce_off mip pd r o q)|].
+  split; [exact (ireduce_preferred_only mip pd r prefs q) | exact (ireduce_unset_list mip pd r red q)].
+Qed.
+Theorem C15_same_quantity_transitive r q1 q2 q3 : same_quantity r q1 q2 → same_quantity r q2 q3 → same_quantity r q1 q3.
+Proof. exact (same_quantity_trans r q1 q2 q3). Qed.
+
+(** ** the side conditions are decidable and hold for the registry regenerated from /repo *)
+Theorem C15_default_registry_well_formed : reg_nz default_reg ∧ reg_ok default_reg.
+Proof. split; [apply reg_nzb_spec | apply reg_okb_spec]; vm_compute; reflexivity. Qed.
+
+(** ** non-vacuity on the regenerated default registry: each Example is ONE computation.
+    3 mile/hour -> 4191/3125 m/s; 2 m*inch/s**2 -> 10000/127 inch**2/s**2 (meter merged into
+    inch; liter <-> inch has ratio 1/3; inch / second are not mergeable); 1500 m -> 1.5 km with
+    every hypothesis of [C15_compact_range] discharged by computation ([cx_checks]). *)
+Example C15_root_nonvacuous :
+  (λ r, wfb (rq_u ex_speed) && nodimb (rq_u ex_speed) && exact_unitb r (rq_u ex_speed) && reg_nzb r && reg_okb r
+    && match dim_of r (rq_u ex_speed), to_root_units r ex_speed, ito_root_units r ex_speed with
+       | Ok d, Ok q', Ok q'' =>
+           uc_eqb d (mkuc [("[length]", mkq 1 1); ("[time]", mkq (-1) 1)])
+           && uc_eqb (rq_u q') (mkuc [("meter", mkq 1 1); ("second", mkq (-1) 1)])
+           && mag_eqb (rq_m q') (MFin (mkq 4191 3125)) && uc_eqb (rq_u q'') (rq_u q') && mag_eqb (rq_m q'') (rq_m q')
+       | _, _, _ => false
+       end) default_reg = true.
+Proof. vm_compute. reflexivity. Qed.
+
+Example C15_reduced_nonvacuous :
+  (λ r, wfb (rq_u ex_area) && exact_unitb r (rq_u ex_area)
+    && match dim_ratio r "meter" "inch", dim_ratio r "liter" "inch", dim_ratio r "inch" "second" with
+       | Ok (Some a), Ok (Some b), Ok None => Qc_eq_bool a 1 && Qc_eq_bool b (mkq 1 3)
+       | _, _, _ => false
+       end
+    && match get_reduced_units r (rq_ord ex_area) (rq_u ex_area), to_reduced_units r ex_area with
+       | Ok b, Ok q' =>
+           uc_eqb b (mkuc [("inch", mkq 2 1); ("second", mkq (-2) 1)]) && uc_eqb (rq_u q') b
+           && mag_eqb (rq_m q') (MFin (mkq 10000 127)) && exact_unitb r b
+       | _, _ => false
+       end) default_reg = true.
+Proof. vm_compute. reflexivity. Qed.
+
+Example C15_compact_range_nonvacuous :
+  ∃ q' x', to_compact default_reg ex_len = Ok q' ∧ uc_eqb (rq_u q') (mkuc [("kilometer", mkq 1 1)]) = true
+           ∧ rq_m q' = MFin x' ∧ (1 <= Qcabs x')%Qc ∧ (Qcabs x' < pow10 3)%Qc.
+Proof. apply cx_generic. vm_compute. reflexivity. Qed.
